@@ -4,9 +4,11 @@ spec/comp/Derived.tla is a state machine over objects that carry derived data (p
 hyperbolic polygons: edges; hyperbolic segments: ideal endpoints; tangent vectors: projected vector;
 plus hyperbolic points as the class without derived data): state = (class, shape, array of unit ids
 read from the primary data, array of unit ids read from the derived data), one action per public
-method (construct / copy / apply / reshape / flatten / index / slice / set item / stack / combine /
-astype) with the shape and index behaviour of Composite.tla, read-only queries as stuttering
-actions.  TLC checks Coherent and TypeOK on every reachable state and emits the labelled
+method (construct / copy / apply / reshape / flatten / index / slice / set item with integer,
+negative, tuple, index-list, integer-array, boolean-mask and stepped-slice keys / swap through a
+temporary / stack / combine / astype) with the shape and index behaviour of Composite.tla, read-only
+queries as stuttering actions; an indexed sub-object the caller keeps (tmp = obj[i], sub = obj[a:b])
+is a second object of the state.  TLC checks Coherent and TypeOK on every reachable state and emits the labelled
 transition system.
 
 Conformance (spec -> code): every history of actions up to the depth bound is executed on the real
@@ -14,7 +16,9 @@ object; after every step the object is projected back: shape, unit ids decoded f
 (exact payloads of CompUnits.tla), unit ids decoded independently from aux_data, and aux_data
 against type(obj)(obj.proj_data).aux_data; then every query the specification lists for the class
 is called and the object, the other operand and the caller's arrays must still represent the same
-projective points.  X[i] = Y is additionally replayed for every pair of shapes of Composite.tla.
+projective points (and a tangent vector must not come out reversed).  The kept sub-object and every
+array the caller handed over are projected after every step as well; branches of the exploration are
+cloned so that aliasing between arrays survives (views, shared buffers).  X[i] = Y is additionally replayed for every pair of shapes of Composite.tla.
 """
 import copy
 import json
@@ -30,13 +34,14 @@ from .. import comp_common as cc
 from .. import comp_trace
 
 TABS = None
-LTS = None          # key -> list of (act, to_key, to_state)
+LTS = None          # name of the TLC run -> {key -> list of (act, to_key, to_state)}
 QUERIES = None      # cls -> sorted list of query names (from the spec's Query transitions)
 DERIVED_CLASSES = ["Polygon", "HPolygon", "Segment", "Tangent", "HPoint"]
 
 
 def skey(s):
-    return (s["cls"], bool(s["built"]), tuple(s["shape"]), tuple(cc.as_id(i) for i in s["pc"]), s["n"])
+    h = (tuple(s["hshape"]), tuple(cc.as_id(i) for i in s["hpc"])) if s.get("held") else None
+    return (s["cls"], bool(s["built"]), tuple(s["shape"]), tuple(cc.as_id(i) for i in s["pc"]), s["n"], h)
 
 
 def act_str(a):
@@ -55,6 +60,18 @@ def act_str(a):
         return "[%d:%d]" % (a["lo"], a["hi"])
     if k == "setitem":
         return "[%d]=%s(%s:%s)" % (a["i"], a["src"], a["as"], ",".join(cc.ids_str(a["ycell"])))
+    if k == "setkey":
+        return "[%s:%s]=%s(%s)" % (a["kind"], ",".join(map(str, a["rows"])), a["src"], ",".join(cc.ids_str(a["ycell"])))
+    if k == "settuple":
+        return "[%s]=unit(%s)" % (",".join(map(str, a["ix"])), ",".join(cc.ids_str(a["ycell"])))
+    if k == "swap":
+        return "tmp=[%d];[%d]=[%d];[%d]=tmp" % (a["i"], a["i"], a["j"], a["j"])
+    if k == "hold":
+        return "tmp=obj[%d]" % a["lo"] if a["kind"] == "index" else "tmp=obj[%d:%d]" % (a["lo"], a["hi"])
+    if k == "putheld":
+        return "[%d]=tmp" % a["i"]
+    if k == "setheld":
+        return "tmp[0]=unit(%s)" % ",".join(cc.ids_str(a["ycell"]))
     if k == "combine":
         return "combine(+%s)" % ",".join(cc.ids_str(a["ocell"]))
     if k == "astype":
@@ -66,17 +83,63 @@ def act_str(a):
 # executing one action of the specification on the live object
 # ----------------------------------------------------------------------------------------
 class Ctx:
-    """the live object plus what the caller still holds (arrays it passed in)"""
+    """the live object, the indexed sub-object the caller keeps, and the arrays the caller passed in"""
     def __init__(self, cls, dim):
         self.cls = cls
         self.dim = dim
         self.obj = None
+        self.held = None      # tmp = obj[i] / sub = obj[a:b]
         self.inputs = []      # (array held by the caller, copy made when it was handed over)
         self.tol = cc.TOL
         self.complex = False
+        self.negreps = False  # some units were handed over as -x
 
     def hold(self, arr):
         self.inputs.append((arr, np.array(arr, copy=True)))
+
+
+def _root(a):
+    while isinstance(a.base, np.ndarray):
+        a = a.base
+    return a
+
+
+def clone_ctx(ctx):
+    """A private copy of the context for one branch of the exploration that PRESERVES aliasing between arrays
+    (a sub-object that is a view into its parent, an object sharing the caller's array, shallow copies): every
+    distinct root buffer is copied once and every array is re-created as the same view of the copied root.
+    copy.deepcopy would silently turn views into independent arrays and hide exactly those histories."""
+    roots = {}
+
+    def amap(a):
+        r = _root(a)
+        if not (r.flags.owndata and (r.flags.c_contiguous or r.flags.f_contiguous)) or a.dtype.hasobject:
+            return copy.deepcopy(a)
+        key = id(r)
+        if key not in roots:
+            roots[key] = (r, r.copy(order="K"))
+        r0, r1 = roots[key]
+        if a is r0:
+            return r1
+        off = a.__array_interface__["data"][0] - r0.__array_interface__["data"][0]
+        if r1.strides != r0.strides or off < 0 or a.dtype != r0.dtype:
+            return copy.deepcopy(a)
+        buf = r1 if r1.flags.c_contiguous else r1.T          # a C-contiguous window on the copied root
+        return np.ndarray(shape=a.shape, dtype=a.dtype, buffer=buf, offset=off, strides=a.strides)
+
+    def cobj(o):
+        if o is None:
+            return None
+        n = copy.copy(o)
+        for k, v in list(n.__dict__.items()):
+            n.__dict__[k] = amap(v) if isinstance(v, np.ndarray) else copy.deepcopy(v)
+        return n
+
+    c = copy.copy(ctx)
+    c.obj = cobj(ctx.obj)
+    c.held = cobj(ctx.held)
+    c.inputs = [(amap(arr), snap) for (arr, snap) in ctx.inputs]
+    return c
 
 
 def perform(ctx, act, frm, to):
@@ -85,8 +148,9 @@ def perform(ctx, act, frm, to):
     cls, dim = ctx.cls, ctx.dim
     C = cc.lib_class(cls)
     if k == "construct":
-        obj, (data,) = cc.build(TABS, cls, dim, to["shape"], to["pc"], route=act["route"])
+        obj, (data,) = cc.build(TABS, cls, dim, to["shape"], to["pc"], route=act["route"], neg=act.get("neg", ()))
         ctx.obj = obj
+        ctx.negreps = bool(act.get("neg"))
         ctx.hold(data)
     elif k == "copy":
         if act["kind"] == "copy":
@@ -116,6 +180,44 @@ def perform(ctx, act, frm, to):
             val = np.array(val.proj_data)
             ctx.hold(val)
         ctx.obj[act["i"]] = val
+    elif k == "setkey":
+        rows = list(act["rows"])
+        n = frm["shape"][0]
+        kind = act["kind"]
+        if kind == "neg":
+            key = rows[0] - n
+        elif kind == "list":
+            key = rows
+        elif kind == "intarray":
+            key = np.array(rows)
+        elif kind == "mask":
+            key = np.zeros(n, dtype=bool)
+            key[rows] = True
+        elif kind == "step2":
+            key = slice(None, None, 2)
+        elif kind == "reversed":
+            key = slice(None, None, -1)
+        else:
+            raise core.MachineryFailure("unknown key kind %r" % kind)
+        val, _ = cc.build(TABS, cls, dim, act["yshape"], act["ycell"])
+        if act["src"] == "cells":
+            val = np.array(val.proj_data)
+            ctx.hold(val)
+        ctx.obj[key] = val
+    elif k == "settuple":
+        val, _ = cc.build(TABS, cls, dim, act["yshape"], act["ycell"])
+        ctx.obj[tuple(act["ix"])] = val
+    elif k == "swap":
+        tmp = ctx.obj[act["i"]]
+        ctx.obj[act["i"]] = ctx.obj[act["j"]]
+        ctx.obj[act["j"]] = tmp
+    elif k == "hold":
+        ctx.held = ctx.obj[act["lo"]] if act["kind"] == "index" else ctx.obj[act["lo"]:act["hi"]]
+    elif k == "putheld":
+        ctx.obj[act["i"]] = ctx.held
+    elif k == "setheld":
+        val, _ = cc.build(TABS, cls, dim, (), act["ycell"])
+        ctx.held[0] = val
     elif k == "stack":
         ids = [cc.as_id(i) for i in frm["pc"]][::-1]
         other, _ = cc.build(TABS, cls, dim, frm["shape"], ids)
@@ -278,6 +380,38 @@ def results_differ(got, want, tol):
     return None
 
 
+_FRESH = {}      # (class, dim, abstract state, query) -> values a fresh object of that state returns
+
+
+def fresh_values(cls, dim, state, ids, oids, q):
+    key = (cls, dim, tuple(state["shape"]), tuple(ids), q)
+    if key not in _FRESH:
+        fresh, _ = cc.build(TABS, cls, dim, state["shape"], ids)
+        fresh_other, _ = cc.build(TABS, cls, dim, state["shape"], oids)
+        _FRESH[key] = [np.array(v, dtype=complex) for v in _flat_values(run_query(q, fresh, fresh_other, cls, dim))]
+        if len(_FRESH) > 200000:
+            _FRESH.clear()
+    return _FRESH[key]
+
+
+def tangent_frame(obj):
+    """what the API shows of a tangent vector: (point, vector), read from primary and derived data"""
+    return np.real(np.array(obj.point, dtype=complex)), np.real(np.array(obj.vector, dtype=complex))
+
+
+def tangent_reversed(before, obj):
+    """(x, v) and (-x, -v) are the same tangent vector and in-place normalisation rescales each row by a positive
+    factor; (x, -v) is the reversed vector.  None, or a message if some unit got reversed."""
+    bp, bv = before
+    ap, av = tangent_frame(obj)
+    if ap.shape != bp.shape or av.shape != bv.shape:
+        return None
+    s = np.sign((bp * ap).sum(-1)) * np.sign((bv * av).sum(-1))
+    if (s < 0).any():
+        return "the (point, vector) pair of unit %d now describes the reversed tangent vector" % int(np.argmax((s < 0).reshape(-1)))
+    return None
+
+
 def battery(ctx, state):
     """call every query of the class; the object, the other operand and the caller's arrays must not move"""
     cls, dim, obj = ctx.cls, ctx.dim, ctx.obj
@@ -289,8 +423,6 @@ def battery(ctx, state):
     n = 0
     # the same abstract state built from scratch: a query on the object that went through the history must return
     # what it returns on this fresh object (stale memoised results, caches not invalidated by in-place edits)
-    fresh, _ = cc.build(TABS, cls, dim, state["shape"], ids)
-    fresh_other, _ = cc.build(TABS, cls, dim, state["shape"], oids)
     # chart-0 coordinates are defined only if every row of every unit has x_0 != 0 (flag computed by TLC)
     chart0 = all(TABS.units[dim][cls][i]["chart0"] for i in ids)
     for q in QUERIES[cls]:
@@ -298,20 +430,21 @@ def battery(ctx, state):
             continue
         before = cc.snapshot(obj)
         obefore = cc.snapshot(other)
+        tbefore = (tangent_frame(obj), tangent_frame(other)) if cls == "Tangent" else None
         n += 1
         try:
             with warnings.catch_warnings():
                 warnings.simplefilter("ignore")
                 with np.errstate(all="ignore"):
                     got = run_query(q, obj, other, cls, dim)
-                    want = run_query(q, fresh, fresh_other, cls, dim)
+                    want = fresh_values(cls, dim, state, ids, oids, q)
         except core.MachineryFailure:
             raise
         except Exception as e:
             return n, ("query.raised:" + q, "%s: %s" % (type(e).__name__, e))
         # after astype(float32) the object carries single-precision data: near-degenerate outputs (radii of almost
         # straight arcs, NaN patterns) legitimately differ from the double-precision fresh object
-        bad = results_differ(got, want, ctx.tol) if ctx.tol <= 1e-6 else None
+        bad = results_differ(got, want, ctx.tol) if (ctx.tol <= 1e-6 and not ctx.negreps) else None
         if bad and q in ("circle_parameters", "edges_circle_parameters", "sphere_parameters"):
             # centre, radius and angles of one unit belong together: when any of them is degenerate (a geodesic
             # through the half-space point at infinity, a diameter) the others carry no information either
@@ -326,6 +459,13 @@ def battery(ctx, state):
         m = cc.moved(obefore, other, whole, tol=ctx.tol)
         if m:
             return n, ("query_moved_argument:" + q, m)
+        if tbefore is not None:
+            m = tangent_reversed(tbefore[0], obj)
+            if m:
+                return n, ("query_reversed_tangent_vector:" + q, m)
+            m = tangent_reversed(tbefore[1], other)
+            if m:
+                return n, ("query_reversed_argument:" + q, m)
         for (arr, snap) in ctx.inputs:
             m = cc.moved(snap.astype(complex), arr, whole, tol=ctx.tol)
             if m:
@@ -347,11 +487,33 @@ class Stats:
         self.sample = None
 
 
-def explore(ctx, key, state, hist, depth, st, qrate, rng, root=False):
+def project(ctx, state):
+    """projection of everything the caller can see onto the specification's state. Returns None or (clause, detail)."""
+    bad = cc.check_object(TABS, ctx.obj, ctx.cls, ctx.dim, state["shape"], state["pc"], tol=ctx.tol)
+    if bad:
+        return bad
+    if state.get("held"):
+        # the indexed sub-object the caller kept is an object of its own: later calls on the object it was taken
+        # from do not change it, and assigning into it does not change that object
+        if ctx.held is None:
+            return ("held.missing", "harness lost the held object")
+        bad = cc.check_object(TABS, ctx.held, ctx.cls, ctx.dim, state["hshape"], state["hpc"], tol=ctx.tol)
+        if bad:
+            return ("held_object:" + bad[0], bad[1])
+    # arrays the caller handed over (constructor input, assigned values) are the caller's: no later call on the
+    # object may write into them
+    for n, (arr, snap) in enumerate(ctx.inputs):
+        m = cc.moved(snap.astype(complex), arr, TABS.whole[ctx.cls], tol=ctx.tol)
+        if m:
+            return ("caller_array_written", "array #%d handed over by the caller: %s" % (n, m))
+    return None
+
+
+def explore(ctx, key, state, hist, depth, st, qrate, rng, root=False, lts="main"):
     """ctx.obj realises `state`. Check it, query it, then try every action."""
     st.nodes += 1
     try:
-        bad = cc.check_object(TABS, ctx.obj, ctx.cls, ctx.dim, state["shape"], state["pc"], tol=ctx.tol)
+        bad = project(ctx, state)
     except core.MachineryFailure:
         raise
     except Exception as e:
@@ -361,12 +523,16 @@ def explore(ctx, key, state, hist, depth, st, qrate, rng, root=False):
             st.viol.append((list(hist), bad))
         return
     edited = bool(hist) and "]=" in hist[-1]          # the last action was an item assignment
+    # after an item assignment the queries always run (stale memoised results); in the third level of the thorough
+    # tier on a seeded tenth of those states
+    if edited and len(hist) > 4:
+        edited = rng.random() < 0.1
     if not ctx.complex and (root or edited or qrate >= 1.0 or rng.random() < qrate):
         try:
             n, bad = battery(ctx, state)
             st.queries += n
             if not bad:
-                bad = cc.check_object(TABS, ctx.obj, ctx.cls, ctx.dim, state["shape"], state["pc"], tol=ctx.tol)
+                bad = project(ctx, state)
                 if bad:
                     bad = ("after_queries:" + bad[0], bad[1])
         except core.MachineryFailure:
@@ -377,7 +543,7 @@ def explore(ctx, key, state, hist, depth, st, qrate, rng, root=False):
             if len(st.viol) < 10:
                 st.viol.append((list(hist) + ["<queries>"], bad))
             return
-    succ = LTS.get(key, [])
+    succ = LTS[lts].get(key, []) if depth > 0 else []
     if depth == 0 or not succ:
         st.hist += 1
         if st.sample is None and len(hist) >= 3 and ctx.cls != "HPoint":
@@ -385,7 +551,7 @@ def explore(ctx, key, state, hist, depth, st, qrate, rng, root=False):
                              final_units=cc.ids_str(state["pc"]))
         return
     for (act, tk, to) in succ:
-        c2 = copy.deepcopy(ctx)
+        c2 = clone_ctx(ctx)
         h2 = hist + [act_str(act)]
         st.steps += 1
         st.per[act["a"]] = st.per.get(act["a"], 0) + 1
@@ -400,13 +566,13 @@ def explore(ctx, key, state, hist, depth, st, qrate, rng, root=False):
             if len(st.viol) < 10:
                 st.viol.append((h2, ("raised:" + act["a"], "%s: %s" % (type(e).__name__, e))))
             continue
-        explore(c2, tk, to, h2, depth - 1, st, qrate, rng)
+        explore(c2, tk, to, h2, depth - 1, st, qrate, rng, lts=lts)
 
 
 def explore_chunk(args):
     jobs, depth, qrate, seed = args
     st = Stats()
-    for (cls, dim, act, tk, to, d) in jobs:
+    for (cls, dim, act, tk, to, d, ltsname) in jobs:
         rng = random.Random(zlib.crc32(repr((seed, cls, dim, act_str(act), tk)).encode()))
         ctx = Ctx(cls, dim)
         st.steps += 1
@@ -422,15 +588,15 @@ def explore_chunk(args):
         except Exception as e:
             st.viol.append((h, ("raised:construct", "%s: %s" % (type(e).__name__, e))))
             continue
-        explore(ctx, tk, to, h, d, st, qrate, rng, root=True)
+        explore(ctx, tk, to, h, d, st, qrate, rng, root=True, lts=ltsname)
     return st
 
 
-def derived_lts(run, classes, maxops, maxsize, name, K=5):
+def derived_lts(run, classes, maxops, maxsize, name, K=5, lean=False):
     """labelled transition system of Derived.tla. The stuttering query actions are taken from a run with MaxOps = 0
     (they are enabled in every built state; leaving them out of the big run keeps its output small)."""
     def go(ops, withq, nm):
-        c = core.cfg(constants=dict(Classes=set(classes), K=K, MaxWord=2, MaxOps=ops, MaxSize=maxsize, WithQueries=withq),
+        c = core.cfg(constants=dict(Classes=set(classes), K=K, MaxWord=2, MaxOps=ops, MaxSize=maxsize, WithQueries=withq, Lean=lean),
                      invariants=["TypeOK", "Coherent"], view="View", action_constraints=["Emit"])
         return run.tlc("comp/Derived.tla", c, name=nm, workers=min(8, core.NCPU))
     queries = {}
@@ -508,10 +674,17 @@ def run(run, replay=None):
     run.assumptions += [
         "classes: projective Polygon, hyperbolic Polygon, Segment, TangentVector (derived data) and hyperbolic Point; "
         "dimension 2 (and 3 with a smaller depth)",
-        "histories: constructor (from array / list of objects / object) then up to 2 (quick) / 3 (thorough) "
-        "state-changing calls (depth 3 only from the initial objects of shape (), (2,), (2,2); one less for the list / "
-        "object constructor routes, in dimension 3, and for hyperbolic Point), objects of at most 6 units, at most two transformations per unit; the query battery runs "
-        "after the constructor and on a seeded fraction (15% quick / 6% thorough) of the later states",
+        "histories: constructor (from an array / an array with some units stored as -x / a list of objects / an object) "
+        "then up to 2 state-changing calls (one less for the other constructor routes than from an array, in dimension 3 "
+        "and for hyperbolic Point; quick: depth 2 only from the objects of shape (), (2,), (3,), (2,2) and one "
+        "representative per family of item-assignment arguments); thorough adds depth 3 from the array-built objects of "
+        "shape (), (2,), (2,2) in dimension 2 with one representative per family of item-assignment arguments",
+        "objects of at most 6 units, at most two transformations per unit; an indexed sub-object kept by the caller "
+        "(tmp = obj[i], sub = obj[a:b]) is part of the state and is projected after every step; every array the caller "
+        "handed over must keep representing the same points after every step",
+        "the query battery runs after the constructor, after every item assignment (a seeded tenth of them at depth 3) "
+        "and on a seeded 5% (quick) / 4% (thorough) of the other states; the comparison with a fresh object is skipped "
+        "for objects built from -x representatives (sign conventions of returned representatives are C12's subject)",
         "queries are not executed on complex-valued objects (after astype(complex128)); tolerance 5e-4 after float32",
         "ConvexPolygon is not covered (composite use documented as unsupported)",
     ]
@@ -522,37 +695,52 @@ def run(run, replay=None):
 
     def lts_job():
         try:
-            box["lts"] = derived_lts(run, DERIVED_CLASSES, depth, 6, "Derived_depth%d" % depth, K=5)
+            if quick:
+                box["main"] = derived_lts(run, DERIVED_CLASSES, 2, 6, "Derived_depth2", K=5, lean=True)
+            else:
+                # every argument combination to depth 2; one representative per family of item-assignment arguments
+                # (Lean) to depth 3
+                box["main"] = derived_lts(run, DERIVED_CLASSES, 2, 6, "Derived_depth2", K=5, lean=False)
+                box["deep"] = derived_lts(run, [c for c in DERIVED_CLASSES if c != "HPoint"], 3, 6, "Derived_depth3_lean", K=5,
+                                          lean=True)
         except BaseException as e:
             box["err"] = e
     th = threading.Thread(target=lts_job)
     th.start()
     try:
-        TABS = cc.load_all(run, maxrank=2 if quick else 3, dims=(2, 3), K=5, maxword=2)
+        TABS = cc.load_all(run, maxrank=2 if quick else 3, dims=(2, 3), K=5, maxword=2, classes=DERIVED_CLASSES)
     finally:
         th.join()
     if "err" in box:
         raise box["err"]
-    LTS, QUERIES = box["lts"]
+    LTS = {k: v[0] for k, v in box.items()}
+    QUERIES = box["main"][1]
     nproc = min(8, core.NCPU)
     # jobs: one per (class, dimension, constructor transition)
     jobs = []
-    for key, succ in LTS.items():
+    for key, succ in LTS["main"].items():
         if key[1]:
             continue
         for (act, tk, to) in succ:
             cls = key[0]
-            # full depth in dimension 2 for the array route; the other constructor routes, dimension 3 and (thorough) the
-            # class without derived data one level less
-            d2 = depth if act["route"] == "array" else depth - 1
+            # depth 2 in dimension 2 for the array route; one level less for the other constructor routes, for dimension 3
+            # and for the class without derived data
+            d2 = 2 if act["route"] == "array" else 1
             if cls == "HPoint":
                 d2 -= 1
-            if depth > 2 and tuple(to["shape"]) not in ((), (2,), (2, 2)):
-                d2 = min(d2, 2)           # thorough: depth 3 from the objects of shape (), (2,), (2,2)
-            jobs.append((cls, 2, act, tk, to, d2))
-            jobs.append((cls, 3, act, tk, to, max(d2 - 1, 0)))
+            if quick and tuple(to["shape"]) in ((1, 2), (2, 1)):
+                d2 = min(d2, 1)           # quick: depth 2 from the objects of shape (), (2,), (3,), (2,2)
+            jobs.append((cls, 2, act, tk, to, d2, "main"))
+            jobs.append((cls, 3, act, tk, to, max(d2 - 1, 0), "main"))
+    for key, succ in LTS.get("deep", {}).items():
+        if key[1]:
+            continue
+        for (act, tk, to) in succ:
+            # thorough: depth 3 from the objects of shape (), (2,), (2,2) built from an array, dimension 2
+            if act["route"] == "array" and tuple(to["shape"]) in ((), (2,), (2, 2)):
+                jobs.append((key[0], 2, act, tk, to, 3, "deep"))
     jobs.sort(key=lambda j: -j[5])
-    qrate = 0.15 if quick else 0.06
+    qrate = 0.05 if quick else 0.04
     # interleave jobs over the workers, heavy ones first
     chunks = [jobs[i::nproc * 4] for i in range(nproc * 4)]
     with mp.get_context("fork").Pool(nproc) as pool:
